@@ -321,6 +321,10 @@ impl<'a, 'tcx> Ex<'a, 'tcx> {
                 let mut o = self.node("lit", e);
                 o.put("neg", J::Bool(*neg));
                 o.put("lit", lit_j(&lit.node));
+                if e.span.from_expansion() {
+                    // e.g. the `true` / `false` produced by `cfg!(..)`
+                    o.put("expn", expn_j(e.span));
+                }
                 o.put("ty", ty_j(tcx, e.ty));
                 o
             }
